@@ -178,3 +178,12 @@ reg('C20', engine='llsym',
     note='Trusted: clang IR, llsym semantics, calloc/malloc contracts, CPython contracts. Partial: small initializers, '
          'two struct shapes; dict initializers, unions and custom allocators not covered.',
     technique='symbolic execution of LLVM IR, SMT (z3 bit-vectors)')
+
+reg('C23', engine='pysym',
+    text='The real _make_c_or_py_source runs on symbolic old/new contents (SymStr proxies) over a model POSIX file '
+         'system with a symbolic crash point (every mutating operation, any written prefix): identical content leaves '
+         'the file untouched and returns False; otherwise the target holds exactly old or exactly new at every crash '
+         'point and exactly new with no temporary left when there is no crash.',
+    note='Trusted: pysym/SymStr proxies, the POSIX file-system model (atomic rename that does not fail). Determinism '
+         'of the generated text across hash seeds is NOT covered; the text generator is stubbed.',
+    technique='symbolic execution of the real Python function via proxies over a model file system with symbolic crash index, SMT (z3)')
